@@ -20,7 +20,7 @@ from vp import common
 from vp.common import cz, clist, copt, cstr
 
 IMPORTS = '''From Coq Require Import String List ZArith.
-From VV Require Import Lib.Base C19.Model.
+From VV Require Import Lib.Base C19.Model C19.Code.
 Import ListNotations.
 '''
 
@@ -355,6 +355,244 @@ def oracle(ctx, case, obs):
             fail(f'file {list(path)} does not belong to the directory of a task', 'stray-file')
 
 
+
+# --------------------------------------------------------------------------
+# the other command-running tasks: CheckoutTask / BuildTask (valjean/cosette/code.py) with stand-in executables
+#
+# code case: {'mode': 'code', 'tasks': [{'kind': 'checkout'|'build', 'name', 'exe': 'script'|'missing'|'vanish',
+#             'steps': [[out, err, code], [out, err, code]], + constructor options}]}
+# the stand-in for git / cmake is a generated shell script that appends its step and arguments to a marker file,
+# writes the step's texts to both streams and exits with the step's code ('vanish': it deletes itself during the
+# first step, so that the second command cannot be started; 'missing': it does not exist at all)
+
+STUB = """#!/bin/sh
+case "$1" in %(second)s) step=1;; *) step=0;; esac
+{ printf '%%s\\037' "%(ident)s" "$step" "$@"; echo; } >> "%(mark)s"
+cat "$0.$step.out"; cat "$0.$step.err" >&2
+code=$(cat "$0.$step.code")
+%(vanish)s
+exit "$code"
+"""
+
+CODE_FLAGS = [None, [], ['--depth', '1'], ['-q', "it's"], ['--origin', 'up stream']]
+CODE_TARGETS = [None, [], ['all'], ['lib', 'doc x']]
+
+
+def gen_code_task(rng, name):
+    kind = rng.choice(['checkout', 'build'])
+    r = rng.random()
+    c0 = 0 if r < 0.6 else rng.choice([1, 2, 128, 255])
+    c1 = 0 if rng.random() < 0.6 else rng.choice([1, 3, 127, 255])
+    task = {'kind': kind, 'name': name,
+            'exe': 'script' if rng.random() < 0.8 else rng.choice(['missing', 'vanish']),
+            'steps': [[rng.choice(TEXTS), rng.choice(TEXTS), c0], [rng.choice(TEXTS), rng.choice(TEXTS), c1]]}
+    if kind == 'checkout':
+        task['flags'] = rng.choice(CODE_FLAGS)
+        task['ref'] = rng.choice([None, None, 'v1.0', 'main', 'feature/x'])
+    else:
+        task['configure_flags'] = rng.choice(CODE_FLAGS)
+        task['build_flags'] = rng.choice(CODE_FLAGS)
+        task['targets'] = rng.choice(CODE_TARGETS)
+    return task
+
+
+def gen_code_cases(ctx):
+    rng = ctx.rng
+    cases = []
+    ok, ko = ['o', 'e', 0], ['p', 'q', 1]
+    for kind in ('checkout', 'build'):
+        for steps in ([ok, ok], [ok, ko], [ko, ok], [ko, ko]):
+            for opts in ({}, {'ref': 'v1', 'flags': ['-q'], 'configure_flags': ['-DX=1'], 'build_flags': ['-j2'],
+                             'targets': ['all']}):
+                task = {'kind': kind, 'name': 'code', 'exe': 'script', 'steps': [list(x) for x in steps]}
+                base = ({'flags': None, 'ref': None} if kind == 'checkout'
+                        else {'configure_flags': None, 'build_flags': None, 'targets': None})
+                task.update({k: opts.get(k, v) for k, v in base.items()})
+                cases.append({'mode': 'code', 'tasks': [task]})
+        for exe in ('missing', 'vanish'):
+            task = {'kind': kind, 'name': 'code', 'exe': exe, 'steps': [list(ok), list(ok)]}
+            task.update({'flags': None, 'ref': None} if kind == 'checkout'
+                        else {'configure_flags': None, 'build_flags': None, 'targets': None})
+            cases.append({'mode': 'code', 'tasks': [task]})
+        for name in ['', '..', 'a/b', '.']:
+            task = {'kind': kind, 'name': name, 'exe': 'script', 'steps': [list(ok), list(ok)]}
+            task.update({'flags': None, 'ref': None} if kind == 'checkout'
+                        else {'configure_flags': None, 'build_flags': None, 'targets': None})
+            cases.append({'mode': 'code', 'tasks': [task]})
+    ctx.count('code_corpus', len(cases))
+    nrand = 60 if ctx.tier == 'quick' else 1500
+    for _ in range(nrand):
+        names = []
+        for _ in range(rng.choice([1, 2, 2, 3])):
+            r = rng.random()
+            name = (rng.choice(NAMES_BAD) if r < 0.12 else rng.choice(rng.choice(VARIANT_GROUPS)) if r < 0.4
+                    else rng.choice(NAMES_GOOD))
+            if name not in names and '\n' not in name:
+                names.append(name)
+        cases.append({'mode': 'code', 'tasks': [gen_code_task(rng, name) for name in names]})
+    ctx.count('code_random', nrand)
+    return cases
+
+
+def code_steps(task, exe, out_root, src_dir):
+    """the command lines the task issues (transcription of the interface of git / cmake that code.py uses)"""
+    name = task['name']
+    if task['kind'] == 'checkout':
+        return [[exe, 'clone'] + list(task['flags'] or []) + ['--', 'the-repository', os.path.join(out_root, name)],
+                [exe, 'checkout', task['ref'] if task['ref'] is not None else 'master']]
+    build = [exe, '--build', os.path.join(out_root, name)]
+    for target in task['targets'] or []:
+        build += ['--target', target]
+    return [[exe] + list(task['configure_flags'] or []) + [src_dir], build + list(task['build_flags'] or [])]
+
+
+def code_outcomes(task):
+    """(started, code, out, err) of the two steps when they are executed"""
+    if task['exe'] == 'missing':
+        return [(False, None, '', ''), (False, None, '', '')]
+    outs = [(True, st[2], st[0], st[1]) for st in task['steps']]
+    if task['exe'] == 'vanish':
+        outs[1] = (False, None, '', '')
+    return outs
+
+
+def run_code_case(case, wdir, mods):
+    from valjean.cosette.code import CheckoutTask, BuildTask
+    RunTask, Config, TaskStatus = mods[:3]
+    shutil.rmtree(wdir, ignore_errors=True)
+    os.makedirs(os.path.join(wdir, 'bin'))
+    src_dir = os.path.join(wdir, 'src')
+    os.makedirs(src_dir)
+    out_root, log_root, mark = os.path.join(wdir, 'root'), os.path.join(wdir, 'logs'), os.path.join(wdir, 'mark')
+    config = Config()
+    config.set('path', 'output-root', out_root)
+    config.set('path', 'log-root', log_root)
+    obs, clis_all = [], []
+    for k, task in enumerate(case['tasks']):
+        exe = os.path.join(wdir, 'bin', f'tool{k}')
+        if task['exe'] != 'missing':
+            with open(exe, 'w') as fil:
+                fil.write(STUB % {'second': 'checkout' if task['kind'] == 'checkout' else '--build',
+                                  'ident': k, 'mark': mark,
+                                  'vanish': 'rm -f "$0"' if task['exe'] == 'vanish' else ''})
+            os.chmod(exe, 0o755)
+            for step, (out, err, code) in enumerate(task['steps']):
+                for ext, val in (('out', out), ('err', err), ('code', str(code))):
+                    with open(f'{exe}.{step}.{ext}', 'w', encoding='utf-8') as fil:
+                        fil.write(val)
+        clis_all.append(code_steps(task, exe, out_root, src_dir))
+        if task['kind'] == 'checkout':
+            cls = type('StubCheckout', (CheckoutTask,), {'GIT': exe})
+            obj = cls(task['name'], repository='the-repository', flags=task['flags'], ref=task['ref'])
+        else:
+            cls = type('StubBuild', (BuildTask,), {'CMAKE': exe})
+            obj = cls(task['name'], src_dir, targets=task['targets'], configure_flags=task['configure_flags'],
+                      build_flags=task['build_flags'])
+        entry = {'status': None, 'exc': None, 'dir': None}
+        try:
+            upd, status = obj.do(env={}, config=config)
+            entry['status'] = {TaskStatus.DONE: 'DONE', TaskStatus.FAILED: 'FAILED'}.get(status, str(status))
+            mine = upd.get(task['name'], {}) if isinstance(upd, dict) else {}
+            if 'output_dir' in mine:
+                entry['dir'] = rel_components(mine['output_dir'], out_root)
+            for key in ('checkout_log', 'build_log'):
+                if key in mine:
+                    entry['log_path'] = ['L'] + rel_components(mine[key], log_root)[1:]
+        except Exception as exc:      # what the worker does with it: FAILED
+            entry['status'], entry['exc'] = 'FAILED', type(exc).__name__
+        obs.append(entry)
+    files = {}
+    for tag, top in (('R', out_root), ('L', log_root)):
+        for dirpath, dirnames, filenames in os.walk(top):
+            dirnames.sort()
+            for fname in sorted(filenames):
+                full = os.path.join(dirpath, fname)
+                with open(full, 'rb') as fil:
+                    files['/'.join([tag] + rel_components(full, top)[1:])] = fil.read().decode('utf-8', 'replace')
+            if dirpath != top:
+                files.setdefault('/'.join([tag] + rel_components(dirpath, top)[1:]) + '/', '<dir>')
+    calls = []
+    if os.path.exists(mark):
+        for line in open(mark, encoding='utf-8').read().split('\n'):
+            if line:
+                fields = line.split('\037')[:-1]
+                calls.append([int(fields[0]), int(fields[1]), fields[2:]])
+    stray = [p for p in os.listdir(wdir) if p not in ('bin', 'src', 'root', 'logs', 'mark')]
+    return {'tasks': obs, 'files': files, 'calls': calls, 'clis': clis_all, 'stray': stray}
+
+
+def oracle_code(ctx, case, obs):
+    def fail(what, key):
+        ctx.oracle_failure(f'{what} :: {json.dumps(case)[:500]}', case, key=key)
+
+    files = obs['files']
+    owned = set()
+    if obs['stray']:
+        fail(f'files created outside the output and log roots: {obs["stray"]}', 'code-outside-roots')
+    last = {t['name']: k for k, t in enumerate(case['tasks'])}
+    for k, (task, tob) in enumerate(zip(case['tasks'], obs['tasks'])):
+        name, kind = task['name'], task['kind']
+        outs = code_outcomes(task)
+        ran = [c[1] for c in obs['calls'] if c[0] == k]
+        if tob['status'] not in ('DONE', 'FAILED'):
+            fail(f'{kind} task {name!r} ends with status {tob["status"]}', 'code-status-not-final')
+            continue
+        if not name_is_usable(name):
+            if tob['status'] != 'FAILED':
+                fail(f'{kind} task with unusable name {name!r} is {tob["status"]}', 'code-unusable-name-not-failed')
+            continue
+        all_zero = ran == [0, 1] and all(o[0] and o[1] == 0 for o in outs)
+        if (tob['status'] == 'DONE') != all_zero:
+            fail(f'{kind} task {name!r}: status {tob["status"]} but steps run {ran} with outcomes '
+                 f'{[(o[0], o[1]) for o in outs]}', 'code-done-iff-all-zero')
+        expect = []
+        for step, o in enumerate(outs):
+            if not o[0]:
+                break
+            expect.append(step)
+            if o[1] != 0:
+                break
+        if ran != expect:
+            fail(f'{kind} task {name!r}: steps run {ran}, expected {expect} (through the first failure)',
+                 'code-not-prefix-through-first-failure')
+        tdir, tlog = f'R/{name}/', f'L/{name}.log'
+        owned.update((tdir, tlog))
+        if tob['dir'] is not None and tob['dir'] != ['R', name]:
+            fail(f'{kind} task {name!r}: output directory {tob["dir"]} is not <root>/<name>', 'code-directory')
+        if tob.get('log_path') is not None and tob['log_path'] != ['L', name + '.log']:
+            fail(f'{kind} task {name!r}: log {tob["log_path"]} is not <log-root>/<name>.log', 'code-log-path')
+        if last[name] != k:
+            continue
+        if tlog not in files:
+            fail(f'{kind} task {name!r}: no log file {tlog}', 'code-log-missing')
+            continue
+        chunks = [x for step in ran for x in (outs[step][2], outs[step][3])]
+        not_run = [outs[step][2] for step in (0, 1) if step not in ran and len(outs[step][2]) > 3]
+        if not in_order(chunks, files[tlog]):
+            fail(f'{kind} task {name!r}: log {files[tlog]!r} does not contain {chunks} in order', 'code-log-content')
+    for path in files:
+        if path not in owned and not any(path.startswith(d) for d in owned if d.endswith('/')):
+            fail(f'{path} does not belong to a task of the case', 'code-stray-file')
+
+
+def coq_code_items(case, obs):
+    items = []
+    for task, tob, clis in zip(case['tasks'], obs['tasks'], obs['clis']):
+        name = task['name']
+        if len(name.encode('utf-8', 'surrogateescape')) > 250 or tob['status'] not in ('DONE', 'FAILED'):
+            continue
+        steps = []
+        for cli, (started, code, out, err) in zip(clis, code_outcomes(task)):
+            outcome = f'(Exited {cz(code)} {cstr(out)} {cstr(err)})' if started else 'CannotStart'
+            steps.append('(mk_ccmd ' + clist([cstr(tok) for tok in cli]) + ' ' + outcome + ')')
+        log = obs['files'].get(f'L/{name}.log') if name_is_usable(name) else None
+        has_dir = name_is_usable(name) and (f'R/{name}/' in obs['files']
+                                            or any(p.startswith(f'R/{name}/') for p in obs['files']))
+        items.append('(' + cstr(name) + ', ' + clist(steps) + ', (mk_code_obs '
+                     + ('DONE' if tob['status'] == 'DONE' else 'FAILED') + ' ' + copt(log, cstr) + ' '
+                     + ('true' if has_dir else 'false') + '))')
+    return items
+
 # --------------------------------------------------------------------------
 # the model side
 
@@ -415,7 +653,10 @@ def run(ctx):
                 'task lists (1-4 tasks of 0-5 commands, first failure position uniform, failures = non-zero exit / '
                 'signal / executable that cannot be started, names incl. invalid, repeated, unicode, too long), '
                 'run directly through RunTask.do and through Scheduler+QueueScheduling(1); non-trivial = some '
-                'task has >= 2 commands and at least one command really ran; distinct by case content')
+                'task has >= 2 commands and at least one command really ran; distinct by case content; 20% of the cases '
+                'hold names that a normalisation would identify (NFC/NFD/NFKC, case, trailing dots/spaces, zero-width '
+                'characters); plus CheckoutTask / BuildTask (code.py) driven with generated stand-in executables for '
+                'git / cmake (codes per step, both streams, missing or vanishing executable, flags / ref / targets)')
     import time
     cases = gen_cases(ctx)
     wdir = os.path.join(ctx.wd(), 'c19')
@@ -439,6 +680,20 @@ def run(ctx):
             compared.append((case, obs))
         else:
             ctx.count('oracle_only_cases')
+    # the other command-running tasks (code.py) with stand-in executables
+    code_items, code_cases = [], []
+    for case in gen_code_cases(ctx):
+        obs = run_code_case(case, wdir, mods)
+        oracle_code(ctx, case, obs)
+        ctx.case_seen(case, bool(obs['calls']), sample_every=53)
+        ctx.count('mode_code')
+        for task, tob in zip(case['tasks'], obs['tasks']):
+            ctx.count(f'code_{task["kind"]}_{tob["status"]}')
+            if tob.get('exc'):
+                ctx.count('code_raised_' + tob['exc'])
+        for item in coq_code_items(case, obs):
+            code_items.append(item)
+            code_cases.append((case, obs))
     shutil.rmtree(wdir, ignore_errors=True)
     t_impl = time.time() - t_impl
     t_coq = time.time()
@@ -448,8 +703,21 @@ def run(ctx):
         items = [coq_case(case, obs) for case, obs in compared[k:k + shard_size]]
         shards.append('Definition cases : list (list ctask * list obs * files) :=\n ['
                       + ';\n '.join(items) + '].\nEval vm_compute in bad_indices (map check_case cases).')
+    nshards = len(shards)
+    for k in range(0, len(code_items), 150):
+        shards.append('Definition cases : list (string * list ccmd * code_obs) :=\n ['
+                      + ';\n '.join(code_items[k:k + 150])
+                      + '].\nEval vm_compute in bad_indices (map check_code_case cases).')
     outs = common.coq_eval(ctx.pid, IMPORTS, shards)
-    for k, out in enumerate(outs):
+    for k, out in enumerate(outs[nshards:]):
+        for i in common.parse_nat_list(out):
+            case, obs = code_cases[k * 150 + i]
+            ctx.mismatch('code task, implementation observed ' + json.dumps({'tasks': obs['tasks'],
+                                                                             'files': obs['files']})[:600],
+                         {'case': case, 'observed': {'tasks': obs['tasks'], 'files': obs['files'],
+                                                     'calls': obs['calls']}})
+    ctx.extra['code_tasks_compared'] = len(code_items)
+    for k, out in enumerate(outs[:nshards]):
         for i in common.parse_nat_list(out):
             case, obs = compared[k * shard_size + i]
             ctx.mismatch('implementation observed ' + json.dumps({'tasks': obs['tasks'], 'files': obs['files']})[:600],
@@ -468,6 +736,20 @@ def replay(ctx, path):
     data = json.load(open(path))
     case = data['case']['case'] if 'case' in data['case'] else data['case']
     wdir = os.path.join(ctx.wd(), 'c19')
+    if case.get('mode') == 'code':
+        obs = run_code_case(case, wdir, mods)
+        print('case:', json.dumps(case))
+        print('impl:', json.dumps({k: obs[k] for k in ('tasks', 'files', 'calls', 'stray')}))
+        oracle_code(ctx, case, obs)
+        for v in ctx.violations:
+            print('oracle:', v[1][:600])
+        items = coq_code_items(case, obs)
+        if items:
+            body = ('Eval vm_compute in map (fun c => (check_code_case c, code_model (fst (fst c)) (snd (fst c)))) '
+                    + clist(items) + '.')
+            print('model:', common.coq_eval(ctx.pid, IMPORTS, [body])[0][:3000])
+        shutil.rmtree(ctx.wd(), ignore_errors=True)
+        return 0
     obs = run_case(case, wdir, mods)
     print('case:', json.dumps(case))
     print('impl:', json.dumps({'tasks': obs.get('tasks'), 'files': obs.get('files'), 'ran': obs.get('ran'),
